@@ -75,6 +75,11 @@ func resultVals(ts []Term) val {
 func (e *Exec) callRepo(f *ssa.Function, args []Term, x *ssa.Call) val {
 	res := e.g.useCallee(f, args)
 	ct := e.w.contractOf(f)
+	if !e.noObl && e.parent == nil {
+		for _, t := range e.g.implicitRequires(f, args) {
+			e.obligePre(f, t, x)
+		}
+	}
 	if ct != nil && !e.noObl && e.parent == nil {
 		env := e.g.calleeEnv(f, args)
 		for _, cl := range ct.clauses {
@@ -223,7 +228,7 @@ func (g *Gen) calleeAxioms(f *ssa.Function) {
 	if ct == nil {
 		return
 	}
-	var reqs []Term
+	reqs := g.implicitRequires(f, as)
 	for _, cl := range ct.clauses {
 		if cl.kind == "requires" {
 			t := env.tr(cl.expr)
@@ -290,6 +295,7 @@ func (g *Gen) lawAxioms(f *ssa.Function, ct *Contract, cl *Clause) {
 		for i, p := range f.Params {
 			gs = append(gs, tmp.typeInv(p.Type(), args[i]))
 		}
+		gs = append(gs, g.implicitRequires(f, args)...)
 		for _, c := range ct.clauses {
 			if c.kind == "requires" {
 				gs = append(gs, env.tr(c.expr).t)
